@@ -16,14 +16,14 @@ def build(scn, labels=None, order=None):
             G.add_node(lab(u))
         for u in range(1, n + 1):
             for v in range(1, n + 1):
-                if u != v and scn["adj"][u - 1][v - 1]:
+                if scn["adj"][u - 1][v - 1]:
                     G.add_edge(lab(u), lab(v))
         return G
     G = nx.Graph()
     for u in (order or range(1, n + 1)):
         G.add_node(lab(u))
     for u in range(1, n + 1):
-        for v in range(u + 1, n + 1):
+        for v in range(u, n + 1):          # v = u: a self-loop (only the SIS scenario family has them)
             if scn["adj"][u - 1][v - 1]:
                 G.add_edge(lab(u), lab(v))
     return G
